@@ -36,6 +36,8 @@ type Hooks struct {
 	Instr func(in *Interp, fr *Frame, i ssa.Instruction)
 	// MapUpdate handles m[k] = v on abstract maps.
 	MapUpdate func(in *Interp, m, k, v Val, site ssa.Instruction) bool
+	// Builtin intercepts builtin calls (copy, append, len, max, ...) before the default modelling.
+	Builtin func(in *Interp, name string, args []Val, site ssa.Instruction) (Val, bool)
 	// CallValue handles a call through a function value that is not a closure.
 	CallValue func(in *Interp, fnv Val, args []Val, site ssa.Instruction) (Val, bool)
 	// Panic is told about every reached panic before the path ends.
@@ -984,6 +986,11 @@ func (in *Interp) methodOf(t types.Type, m *types.Func) *ssa.Function {
 func (in *Interp) MethodOf(t types.Type, m *types.Func) *ssa.Function { return in.methodOf(t, m) }
 
 func (in *Interp) builtin(name string, args []Val, c *ssa.CallCommon, site ssa.Instruction) Val {
+	if in.Hooks.Builtin != nil {
+		if r, ok := in.Hooks.Builtin(in, name, args, site); ok {
+			return r
+		}
+	}
 	switch name {
 	case "len", "cap":
 		return in.lenOf(args[0], name)
